@@ -715,13 +715,27 @@ class MatchKeySignature(MatchParameter):
         # pdb.set_trace()
         ksinfo = key_signature_pattern.search(kstr)
 
+        if ksinfo is not None and ksinfo.group("mode1").lower() not in (
+            "major",
+            "minor",
+            "maj",
+            "min",
+        ):
+            # a key name in the 1.0.0 spelling ("Cb", "Am", "F#m"), not "<tonic> <mode>"
+            ksinfo = None
+
         if ksinfo is None:
             fmt = "v1.0.0"
             ksinfo = kstr.split("/")
-            fifths1, mode1 = key_name_to_fifths_mode(ksinfo[0].upper())
+            # (only the tonic letter is upper-cased: "b" and "m" are the flat sign and the minor suffix)
+            fifths1, mode1 = key_name_to_fifths_mode(
+                ksinfo[0][:1].upper() + ksinfo[0][1:]
+            )
             fifths2, mode2 = None, None
             if len(ksinfo) == 2:
-                fifths2, mode2 = key_name_to_fifths_mode(ksinfo[1].upper())
+                fifths2, mode2 = key_name_to_fifths_mode(
+                    ksinfo[1][:1].upper() + ksinfo[1][1:]
+                )
         else:
             fmt = "v0.3.0"
             step1, alter1, mode1, step2, alter2, mode2 = ksinfo.groups()
